@@ -1,10 +1,13 @@
 """C06 - Signature text round-trips and the database loads losslessly.
 
-Structural clauses decided (DESIGN.md §5 C06):
- R1 parser token table <=> Display token table for every vocabulary; composite separator skeletons agree
+Structural clauses decided:
+ R1 parser token table <=> Display token table for every vocabulary; composite separator skeletons agree; Header Display
+    prints all four (optional, value) combinations
  R2 inside every alt((..)) no earlier alternative shadows a later one (longer tokens win)
  R3 every FromStr wrapper returns Ok only when no input remains
- R4 section routing of Database::from_str: (module, direction) -> collection, label/sig attachment, error exits
+ R4 section routing of Database::from_str: (module, direction) -> collection, label/sig attachment, error exits; classes / mtu /
+    ua_os are accumulated (initialised once, only appended to); neither the loader nor FingerprintCollection::new drops or
+    reorders entries
 """
 import re
 
